@@ -132,17 +132,50 @@ func (fr *FuncRun) stubCall(f *Frame, st *State, c *ssa.CallCommon, callee *ssa.
 		n := "str_" + callee.Name()
 		w.declFun(n, fmt.Sprintf("(declare-fun %s (Int Int) Int)", n))
 		r := fr.def(sInt, "("+n+" "+args[0].T+" "+args[1].T+")")
-		fr.assume(st, and("(>= "+r+" (- 1))", "(<= "+r+" (- (strlen "+args[0].T+") (strlen "+args[1].T+")))", implies("(> (strlen "+args[1].T+") (strlen "+args[0].T+"))", eq(r, "(- 1)"))))
+		fr.assume(st, and("(>= "+r+" (- 1))", implies(not(eq(r, "(- 1)")), "(<= "+r+" (- (strlen "+args[0].T+") (strlen "+args[1].T+")))"), implies("(> (strlen "+args[1].T+") (strlen "+args[0].T+"))", eq(r, "(- 1)"))))
 		return Val{T: r, S: sInt}, true
 	case "time.Now":
 		used()
 		return fr.havocResults(st, sig.Results(), "now"), true
 	case "sort.Slice", "sort.SliceStable":
 		used()
-		// permutes the slice contents: contents havoced, header unchanged
+		// permutes the elements of this slice: header unchanged, the elements afterwards are a permutation of the
+		// elements before (every new element is one of the old ones), other arrays untouched
+		n := ""
 		if sl, ok := c.Args[0].(*ssa.MakeInterface); ok {
 			if stp, ok := sl.X.Type().Underlying().(*types.Slice); ok {
-				fr.heapHavoc(st, w.ElemHeap(stp.Elem()))
+				sv := fr.val(f, st, sl.X)
+				h := w.ElemHeap(stp.Elem())
+				old := fr.heapCur(st, h)
+				es := w.SortOf(stp.Elem())
+				row := fr.fresh("(Array Int "+es+")", "sorted")
+				perm := fr.freshName("perm")
+				fr.emit(fmt.Sprintf("(declare-fun %s (Int) Int)", perm))
+				i := fr.freshName("i")
+				arr := fr.def(sInt, "(s-arr "+sv.T+")")
+				off := fr.def(sInt, "(s-off "+sv.T+")")
+				ln := fr.def(sInt, "(s-len "+sv.T+")")
+				oldrow := fr.def("(Array Int "+es+")", sel(old, arr))
+				newAt, oldAt := w.At(stp.Elem(), row, off, i), w.At(stp.Elem(), oldrow, off, "("+perm+" "+i+")")
+				fr.assume(st, fmt.Sprintf("(forall ((%s Int)) (! (=> (and (<= 0 %s) (< %s %s)) (and (<= 0 (%s %s)) (< (%s %s) %s) (= %s %s))) :pattern (%s)))",
+					i, i, i, ln, perm, i, perm, i, ln, newAt, oldAt, newAt))
+				fr.assume(st, fmt.Sprintf("(forall ((%s Int)) (! (=> (not (and (<= %s %s) (< %s (+ %s %s)))) (= (select %s %s) (select %s %s))) :pattern ((select %s %s))))",
+					i, off, i, i, off, ln, row, i, oldrow, i, row, i))
+				fr.heapSet(st, h, sto(old, arr, row))
+				n = ln
+			}
+		}
+		// the comparison function is called with indices inside the slice, on some permutation of it
+		if n != "" && len(args) == 2 && args[1].Clo != nil && len(args[1].Clo.Fn.Blocks) > 0 && len(args[1].Clo.Fn.Params) == 2 {
+			clo := args[1].Clo
+			iv, jv := fr.fresh(sInt, "less_i"), fr.fresh(sInt, "less_j")
+			fr.assume(st, and("(<= 0 "+iv+")", "(< "+iv+" "+n+")", "(<= 0 "+jv+")", "(< "+jv+" "+n+")"))
+			cargs := []Val{{T: iv, S: sInt}, {T: jv, S: sInt}}
+			if fc := fr.eng.contracts.lookupFunc(clo.Fn); fc != nil && !fr.eng.inlineAll {
+				fr.assertClosurePre(f, st, fc, clo, cargs, pos)
+			} else {
+				sub := st.clone()
+				fr.inlineCall(f, sub, clo.Fn, clo, cargs, pos)
 			}
 		}
 		return Val{T: "0", S: sInt}, true
@@ -366,4 +399,27 @@ func (fr *FuncRun) ptrAddr(v Val, sv ssa.Value) Addr {
 		return v.Addr
 	}
 	return ObjAddr{Ref: v.T, Elem: sv.Type().Underlying().(*types.Pointer).Elem()}
+}
+
+// assertClosurePre asserts the preconditions of a closure under contract that external code (sort.Slice) will
+// call with the given arguments; captured variables are read through the closure's bindings.
+func (fr *FuncRun) assertClosurePre(f *Frame, st *State, fc *FuncContract, clo *Closure, args []Val, pos token.Pos) {
+	fn := clo.Fn
+	nf := fr.newFrame(fn, f)
+	for i, p := range fn.Params {
+		if i < len(args) {
+			nf.regs[p] = args[i]
+		}
+	}
+	for i, fv := range fn.FreeVars {
+		if i < len(clo.Bind) {
+			nf.bind[fv] = clo.Bind[i]
+			nf.bindVal[fv] = clo.BVal[i]
+		}
+	}
+	ctx := &EvalCtx{fr: fr, f: nf, st: st, old: st, pkg: fr.eng.pkgOf(fn), binds: fr.paramBinds(fn, args), freshBase: fr.allocTop}
+	for i, r := range fc.Requires {
+		t := fr.evalClause(ctx, r)
+		fr.assertOb(st, "pre", fmt.Sprintf("%s:%d", fn.Name(), i+1), t, pos, "precondition of "+fc.Name+" (called by sort.Slice): "+r.Text)
+	}
 }
